@@ -142,6 +142,19 @@ def check(case):
             for cls in (sql.Parenthesis, sql.Function, sql.Where, sql.Identifier, sql.Case):
                 if l.within(cls) != any(isinstance(a, cls) for a in anc):
                     res.fail('within', 'mismatch-' + cls.__name__, '')
+        # ... and for the groups themselves: a node is not its own ancestor, parent or enclosing group
+        gstep = max(1, len(w.groups) // 30)
+        for g in w.groups[::gstep]:
+            anc = w.ancestors(g)
+            if g.has_ancestor(g) or g.is_child_of(g):
+                res.fail('has_ancestor', 'self', '%s node reports itself as its ancestor / parent' % type(g).__name__)
+            for a in anc:
+                if not g.has_ancestor(a):
+                    res.fail('has_ancestor', 'group', 'missing ancestor %s of a %s node' % (type(a).__name__, type(g).__name__))
+            for cls in {type(g), sql.Parenthesis, sql.Statement, sql.Identifier}:
+                if g.within(cls) != any(isinstance(a, cls) for a in anc):
+                    res.fail('within', 'group-mismatch-' + cls.__name__, '%s.within(%s) is %r, the enclosing groups are %s' % (
+                        type(g).__name__, cls.__name__, g.within(cls), [type(a).__name__ for a in anc]))
     if any(tt not in T.Whitespace for tt, v in lex[pos:]):
         res.fail('leaf-missing', '', 'lexer tokens beyond the last statement are not all whitespace')
     res.nontrivial = len(classes) >= 3 and maxdepth >= 3
